@@ -21,6 +21,9 @@ def _concrete_paths(plan, path):
             else:
                 if isinstance(node, dict) and comp in node:
                     nxt.append(p + [comp])
+                elif isinstance(node, list) and isinstance(comp, int) and \
+                        comp < len(node):
+                    nxt.append(p + [comp])
         out = nxt
     return [p for p in out if isinstance(_get(plan, p), list)]
 
